@@ -39,7 +39,8 @@ Record cfg := {
   ae_ni : bool; de_ni : bool;     (* namespace_info.j2 *)
   ae_sb : bool; de_sb : bool;     (* sidebar.j2 *)
   ae_tb : bool; de_tb : bool;     (* type_base.j2 *)
-  ae_ns : bool                    (* Namespace.j2 *)
+  ae_ns : bool;                   (* Namespace.j2 *)
+  lk_up : bool                    (* type links are prefixed with '../' per namespace level of the page (Namespace.j2 -> up) *)
 }.
 
 Definition n_type_info : str := Eval vm_compute in lit "type_info.j2".
@@ -58,12 +59,17 @@ Definition faithful_cfg : cfg := {|
   de_sb := autoescape_selected n_sidebar || docs_escaped_sidebar;
   ae_tb := autoescape_selected n_type_base;
   de_tb := autoescape_selected n_type_base || docs_escaped_type_base;
-  ae_ns := autoescape_selected n_namespace |}.
+  ae_ns := autoescape_selected n_namespace;
+  lk_up := links_up_prefix |}.
 
 (* what the property asks for with the least change: documentation sinks escaped, nothing else touched *)
 Definition conformant_cfg : cfg := {|
   ae_ti := false; de_ti := true; ae_ni := false; de_ni := true; ae_sb := false; de_sb := true;
-  ae_tb := false; de_tb := true; ae_ns := false |}.
+  ae_tb := false; de_tb := true; ae_ns := false; lk_up := links_up_prefix |}.
+
+Definition set_lk_up (c : cfg) (v : bool) : cfg :=
+  {| ae_ti := ae_ti c; de_ti := de_ti c; ae_ni := ae_ni c; de_ni := de_ni c; ae_sb := ae_sb c; de_sb := de_sb c;
+     ae_tb := ae_tb c; de_tb := de_tb c; ae_ns := ae_ns c; lk_up := v |}.
 
 Definition cfg_docs_escaped (c : cfg) : bool := de_ti c && de_ni c && de_sb c && de_tb c.
 
@@ -428,7 +434,8 @@ Definition version_text (b : bool) (t : tinfo) : str :=
   tx b (ti_full_name t) ++ s_v1 ++ tx b (dec_of_Z (ti_major t)) ++ s_dot ++ tx b (dec_of_Z (ti_minor t)) ++ s_rpar.
 
 Definition arr_tinfo (elem_str : str) : tinfo :=
-  {| ti_is_array := true; ti_elem_str := elem_str; ti_full_name := []; ti_major := 0%Z; ti_minor := 0%Z; ti_root_ns := [] |}.
+  {| ti_is_array := true; ti_elem_str := elem_str; ti_full_name := []; ti_major := 0%Z; ti_minor := 0%Z; ti_root_ns := [];
+     ti_full_namespace := []; ti_has_parent := false |}.
 
 Definition dep_class (b dep : bool) : str := s_fwbold ++ tx b (if dep then s_depr_cls else []).
 Definition div_class (b nested : bool) : str := s_collapse_type ++ tx b (if nested then s_nested else []).
@@ -436,7 +443,7 @@ Definition div_class (b nested : bool) : str := s_collapse_type ++ tx b (if nest
 Definition span_cls (cls txt : str) : list piece := elem t_span [(k_class, cls)] [PText txt].
 
 (* generate_type_info(t, attr_name, nested) of type_info.j2; the UniqueNameGenerator state is threaded in call order *)
-Fixpoint emit_ty (st : ung) (t : ty) (attr_name : str) (nested : bool) {struct t} : ung * list piece :=
+Fixpoint emit_ty (up : str) (st : ung) (t : ty) (attr_name : str) (nested : bool) {struct t} : ung * list piece :=
   let b := ae_ti cf in
   match t with
   | Prim s => (st, elem t_p [(k_class, s_fwbold_mb0)] [PText (tx b s)])
@@ -447,7 +454,8 @@ Fixpoint emit_ty (st : ung) (t : ty) (attr_name : str) (nested : bool) {struct t
       let head :=
         toggle_anchor b s_jsvoid id s_toggle2
         ++ (if nested
-            then elem t_a [(k_href, tx b (filter_url_from_type (ci_t c)))] [PText (version_text b (ci_t c))]
+            then elem t_a [(k_href, (if lk_up cf then tx b up else []) ++ tx b (filter_url_from_type (ci_t c)))]
+                      [PText (version_text b (ci_t c))]
                  ++ [PText (s_sp ++ tx b attr_name)]
             else [PText (version_text b (ci_t c) ++ s_sp ++ tx b attr_name)])
         ++ match ci_port c with
@@ -464,7 +472,7 @@ Fixpoint emit_ty (st : ung) (t : ty) (attr_name : str) (nested : bool) {struct t
                   end in
       let sb := match a with
                 | ANil => (fst sid, elem t_p [] [PText s_empty])
-                | _ => emit_attrs (fst sid) a
+                | _ => emit_attrs up (fst sid) a
                 end in
       (fst sb,
        elem t_p [(k_class, dep_class b (ci_deprecated c))] head
@@ -477,21 +485,21 @@ Fixpoint emit_ty (st : ung) (t : ty) (attr_name : str) (nested : bool) {struct t
         toggle_anchor b s_jsvoid id s_toggle2
         ++ tx_markup b (disp_type d) ++ [PText (s_sp ++ tx b attr_name)]
         ++ span_cls s_bitlength_cls s_maxlen_bytes in
-      let sb := emit_ty (fst sid) e [] true in
+      let sb := emit_ty up (fst sid) e [] true in
       (fst sb,
        elem t_p [(k_class, dep_class b dep)] head
        ++ elem t_div [(k_class, div_class b nested); (k_id, tx b id)] (snd sb ++ [POpen t_hr []]))
   end
-with emit_attrs (st : ung) (a : attrs) {struct a} : ung * list piece :=
+with emit_attrs (up : str) (st : ung) (a : attrs) {struct a} : ung * list piece :=
   let b := ae_ti cf in
   match a with
   | ANil => (st, [])
   | ANested nm doc t rest =>
-      let r1 := emit_ty st t nm true in
-      let r2 := emit_attrs (fst r1) rest in
+      let r1 := emit_ty up st t nm true in
+      let r2 := emit_attrs up (fst r1) rest in
       (fst r2, snd r1 ++ doc_pre (de_ti cf) [(k_class, s_docs)] doc ++ snd r2)
   | APlain di is_field len_bytes doc rest =>
-      let r2 := emit_attrs st rest in
+      let r2 := emit_attrs up st rest in
       (fst r2,
        elem t_p [(k_class, s_fwbold_mb0)]
             (tx_markup b (disp_inst di)
@@ -501,36 +509,36 @@ with emit_attrs (st : ung) (a : attrs) {struct a} : ung * list piece :=
 
 Definition ns_id (name : str) : str := str_replace1 46 s_us name.
 
-Fixpoint emit_types (st : ung) (ts : list (str * ty)) : ung * list piece :=
+Fixpoint emit_types (up : str) (st : ung) (ts : list (str * ty)) : ung * list piece :=
   match ts with
   | [] => (st, [])
   | (sn, t) :: r =>
-      if str_eqb sn namespace_doc_key then emit_types st r
-      else let r1 := emit_ty st t [] false in
-           let r2 := emit_types (fst r1) r in
+      if str_eqb sn namespace_doc_key then emit_types up st r
+      else let r1 := emit_ty up st t [] false in
+           let r2 := emit_types up (fst r1) r in
            (fst r2, snd r1 ++ snd r2)
   end.
 
 (* generate_namespace_info(t) of namespace_info.j2 *)
-Fixpoint emit_ns (st : ung) (n : nst) {struct n} : ung * list piece :=
+Fixpoint emit_ns (up : str) (st : ung) (n : nst) {struct n} : ung * list piece :=
   let b := ae_ni cf in
   match n with
   | NS name docs types subs =>
       let id := ns_id name in
       let nd := filter_namespace_doc docs in
-      let r1 := emit_types st types in
-      let r2 := emit_nsl (fst r1) subs in
+      let r1 := emit_types up st types in
+      let r2 := emit_nsl up (fst r1) subs in
       (fst r2,
        elem t_p [(k_class, s_fstitalic)] (toggle_anchor b s_jsvoid2 id s_toggle2 ++ [PText (tx b name)])
        ++ elem t_div [(k_class, s_collapse_ns); (k_id, tx b id)]
             (match nd with [] => [] | _ => doc_pre (de_ni cf) [] nd end ++ snd r1 ++ snd r2))
   end
-with emit_nsl (st : ung) (l : nsl) {struct l} : ung * list piece :=
+with emit_nsl (up : str) (st : ung) (l : nsl) {struct l} : ung * list piece :=
   match l with
   | NNil => (st, [])
   | NCons n r =>
-      let r1 := emit_ns st n in
-      let r2 := emit_nsl (fst r1) r in
+      let r1 := emit_ns up st n in
+      let r2 := emit_nsl up (fst r1) r in
       (fst r2, snd r1 ++ snd r2)
   end.
 
@@ -576,9 +584,12 @@ with emit_sidebar_l (l : nsl) {struct l} : list piece :=
 (* the two data-dependent regions of a page rendered from Namespace.j2 *)
 Definition ns_page_sidebar (n : nst) : list piece :=
   elem t_div [(k_id, s_sidebar)] (emit_sidebar n).
+(* '../' * T.full_name.count('.') of Namespace.j2 (the value is passed whether or not type_info.j2 uses it) *)
+Definition up_of (name : str) : str :=
+  flat_map (fun c => if c =? 46 then [46; 46; 47] else []) name.
 Definition ns_page_main (n : nst) : list piece :=
   elem t_h2 [] [PText (s_docfor ++ tx (ae_ns cf) (ns_name n))]
-  ++ elem t_div [(k_id, s_nsinfo)] (snd (emit_ns ung_reset n)).
+  ++ elem t_div [(k_id, s_nsinfo)] (snd (emit_ns (up_of (ns_name n)) ung_reset n)).
 Definition ns_page (n : nst) : list piece := ns_page_sidebar n ++ ns_page_main n.
 
 (* <body> of a page rendered from type_base.j2 (Structure/Union/DelimitedType.j2); ServiceType.j2 is empty *)
@@ -774,7 +785,8 @@ Definition seg_ok (s : str) : bool := match s with [] => false | _ => forallb id
 
 (* concrete sites for the refutations *)
 Definition mk_tinfo (full root : string) (major minor : Z) : tinfo :=
-  {| ti_is_array := false; ti_elem_str := []; ti_full_name := lit full; ti_major := major; ti_minor := minor; ti_root_ns := lit root |}.
+  {| ti_is_array := false; ti_elem_str := []; ti_full_name := lit full; ti_major := major; ti_minor := minor; ti_root_ns := lit root;
+     ti_full_namespace := full_namespace_of (lit full); ti_has_parent := false |}.
 Definition mk_cinfo (full root : string) (svc : bool) : cinfo :=
   {| ci_t := mk_tinfo full root 1 0; ci_deprecated := false; ci_port := None; ci_union := false; ci_service := svc;
      ci_svc_request := false; ci_doc := [] |}.
@@ -784,8 +796,16 @@ Definition w_outer : ty := Comp (mk_cinfo "rega.sub.Outer" "rega" false) (ANeste
 Definition w_sub : nst := NS (lit "rega.sub") [] [(lit "Outer", w_outer)] NNil.
 (* rega/Inner.1.0, rega/sub/Outer.1.0 { rega.Inner.1.0 inner } *)
 Definition w_site_subns : nst := NS (lit "rega") [] [(lit "Inner", w_inner)] (NCons w_sub NNil).
-Definition w_req : ty := Comp (mk_cinfo "rega.Svc.Request" "rega" false) plain_u8.
-Definition w_resp : ty := Comp (mk_cinfo "rega.Svc.Response" "rega" false) plain_u8.
+Definition mk_half (full : string) : cinfo :=
+  {| ci_t := {| ti_is_array := false; ti_elem_str := []; ti_full_name := lit full; ti_major := 1; ti_minor := 0;
+                ti_root_ns := lit "rega"; ti_full_namespace := lit "rega.Svc"; ti_has_parent := true |};
+     ci_deprecated := false; ci_port := None; ci_union := false; ci_service := false; ci_svc_request := false; ci_doc := [] |}.
+Definition w_req : ty := Comp (mk_half "rega.Svc.Request") plain_u8.
+Definition w_resp : ty := Comp (mk_half "rega.Svc.Response") plain_u8.
+(* does the translated filter send the halves of a service to the service's own anchor? *)
+Definition url_links_service_def : bool :=
+  str_eqb (filter_url_from_type (ci_t (mk_half "rega.Svc.Request"))) (lit "../rega/#rega_Svc_1_0").
+Definition url_links_service : bool := Eval vm_compute in url_links_service_def.
 Definition w_svc : ty := Comp (mk_cinfo "rega.Svc" "rega" true)
                               (ANested (lit "request") [] w_req (ANested (lit "response") [] w_resp ANil)).
 (* rega/Svc.1.0 (a service) *)
